@@ -108,6 +108,7 @@ def data_strategy(draw: Any, allow_empty: bool = False) -> dict[str, Any]:
     if d(st.integers(0, 3)) == 0:
         data["z"] = None
     data["a b"] = data["a-b"]  # only reachable as ['a b'] (Cfg.spaced_names)
+    data.update({"empty": data["s"], "blank": data["m"], "for": data["t"], "true": data["m"]})
     return data
 
 
@@ -286,6 +287,11 @@ class Gen:
         self.scope: dict[str, str] = dict(SCHEMA)
         if cfg.spaced_names:
             self.scope["a b"] = "int"
+            # variables named like keywords: only reachable as ['empty'], ['for'] ...
+            self.scope["empty"] = "str"
+            self.scope["blank"] = "int"
+            self.scope["for"] = "str"
+            self.scope["true"] = "int"
         self.budget = cfg.budget
         self.macros: dict[str, list[tuple[str, bool]]] = {}
         self.partials: dict[str, list[dict[str, Any]]] = {}
